@@ -229,7 +229,7 @@ func (vc *VC) freshResults(st *State, res *types.Tuple, hint string) Val {
 
 // calleeEnv builds the environment in which a callee's contract is evaluated at a call site.
 func (vc *VC) calleeEnv(ci *calleeInfo, heap, old *Heap) *Env {
-	e := &Env{vc: vc, pkg: ci.contract.Pkg, vars: map[string]TV{}, heap: heap, old: old, tparams: ci.tparams}
+	e := &Env{vc: vc, pkg: ci.contract.Pkg, vars: map[string]TV{}, heap: heap, old: old, tparams: ci.tparams, fnCtx: ci.fn}
 	if ci.recv != nil {
 		e.vars[ci.recvName] = *ci.recv
 		if ci.contract.ifaceRecv != "" {
@@ -1203,6 +1203,14 @@ func (vc *VC) fnEnvNames(st *State) *Env {
 	env.locals = func(ce *Env, name string) (TV, bool) {
 		if tv, ok := base(ce, name); ok {
 			return tv, true
+		}
+		if name == "_result" && vc.curInstr != nil {
+			// in an after-call hook: the (single) result of that call
+			if cl, ok := vc.curInstr.(*ssa.Call); ok {
+				if rv, ok := st.vals[cl]; ok && rv.T != "" {
+					return TV{T: rv.T, S: goSType(cl.Type())}, true
+				}
+			}
 		}
 		if (name == "_idx" || name == "_done") && vc.curInstr != nil {
 			// innermost loop containing the current instruction: its range index
